@@ -484,7 +484,11 @@ def fam_class_attrs(r, n):
     """Several reads of the same never-set attribute, several diagnostics with equal keys."""
     name = r.choice(["Holder", "Widget", "Panel"])
     attrs = r.sample(["colour", "size", "weight", "depth"], r.randint(1, 3))
-    lines = ["class %s:" % name, "    def __init__(self) -> None:", "        self.present = %d" % n, ""]
+    lines = ["class %s:" % name, "    def __init__(self) -> None:", "        self.present = %d" % n]
+    for a in ["colour", "size", "weight", "depth"]:
+        if r.chance(0.25):
+            lines.append("        self.%s = %s" % (a, r.choice(["1", "\"heavy\"", "[1]", "None", "2.5"])))
+    lines.append("")
     for k in range(r.randint(2, 4)):
         lines += ["    def m%d(self) -> object:" % k]
         for _ in range(r.randint(1, 3)):
@@ -500,7 +504,114 @@ def fam_class_attrs(r, n):
     return lines
 
 
+def fam_local_multi(r, n):
+    """Several user-defined classes (address-hashed objects) in one construct: isinstance tuples,
+    except tuples, unions, constrained type variables, multiple bases."""
+    names = ["Alpha", "Beta", "Gamma", "Delta"]
+    lines = ["from typing import TypeVar, Union", ""]
+    for i, nm in enumerate(names):
+        base = "(%s)" % names[r.below(i)] if i and r.chance(0.3) else ""
+        lines += ["class %s%s:" % (nm, base), "    def tag_%s(self) -> int:" % nm.lower(), "        return %d" % i, ""]
+    errs = ["ErrA", "ErrB", "ErrC"]
+    for e in errs:
+        lines += ["class %s(Exception):" % e, "    pass", ""]
+    k = r.randint(2, 4)
+    tup = r.sample(names, k)
+    u = sorted(r.sample(names, r.randint(2, 4)))
+    lines += ["def narrow_%d(x: object, y: Union[%s]) -> None:" % (n, ", ".join(u))]
+    body = []
+    opts = r.sample(range(7), r.randint(2, 5))
+    for o in opts:
+        if o == 0:
+            body += ["if isinstance(x, (%s)):" % ", ".join(tup), "    reveal_type(x)", "    x.nothing_here"]
+        elif o == 1:
+            t2 = r.sample(u, r.randint(1, len(u)))
+            body += ["if isinstance(y, (%s,)):" % ", ".join(t2), "    reveal_type(y)", "else:", "    reveal_type(y)"]
+        elif o == 2:
+            body += ["if isinstance(x, %s) or isinstance(x, %s) or isinstance(x, %s):" % tuple(r.sample(names, 3)), "    reveal_type(x)"]
+        elif o == 3:
+            es = r.sample(errs, r.randint(2, 3))
+            body += ["try:", "    print(x)", "except (%s) as exc:" % ", ".join(es), "    reveal_type(exc)"]
+        elif o == 4:
+            body += ["reveal_type(y)", "y.tag_nonexistent"]
+        elif o == 5:
+            body += ["if isinstance(x, (%s, (%s, %s))):" % tuple(r.sample(names, 3)), "    reveal_type(x)"]
+        else:
+            body += ["if type(x) in (%s):" % ", ".join(r.sample(names, 3)), "    reveal_type(x)"]
+    lines += _indent4(body) + [""]
+    if r.chance(0.6):
+        cons = r.sample(names, r.randint(2, 3))
+        lines += ["TV_%d = TypeVar(\"TV_%d\", %s)" % (n, n, ", ".join(cons)), "", "def pick_%d(t: TV_%d) -> TV_%d:" % (n, n, n), "    return t", "",
+                  "def use_pick_%d() -> None:" % n, "    reveal_type(pick_%d(%s()))" % (n, cons[0]), "    pick_%d(1)" % n, ""]
+    if r.chance(0.5):
+        b = r.sample(["ErrA", "ErrB", "ErrC"], 2)
+        lines += ["class Multi_%d(%s):" % (n, ", ".join(b)), "    pass", "", "def use_multi_%d(m: Multi_%d) -> None:" % (n, n), "    reveal_type(m)", "    m.absent", ""]
+    return lines
+
+
+def _indent4(lines):
+    return ["    " + l for l in lines]
+
+
+def fam_equal_literals(r, n):
+    """Constants that compare (and hash) equal across types: 0 == False == 0.0, 1 == True == 1.0."""
+    zero = r.choice(["0", "False", "0.0"])
+    one = r.choice(["1", "True", "1.0"])
+    two = r.choice(["2", "2.0"])
+    lines = ["from typing import Dict, Tuple", "", "def takes_bool_%d(b: bool) -> None:" % n, "    pass", "", "def takes_int_%d(i: int) -> None:" % n, "    pass", "",
+             "def eq_%d(i: int) -> None:" % n]
+    body = []
+    for o in r.sample(range(9), r.randint(3, 6)):
+        if o == 0:
+            body += ["lo, hi = (%s, %s)" % (zero, one), "reveal_type(lo)", "reveal_type(hi)", "takes_bool_%d(hi)" % n]
+        elif o == 1:
+            body += ["reveal_type((%s, %s, %s)[1])" % (zero, one, two)]
+        elif o == 2:
+            body += ["d = {%s: \"a\", %s: \"b\"}" % (zero, two), "reveal_type(d)", "reveal_type(d[%s])" % zero]
+        elif o == 3:
+            body += ["if i in (%s, %s):" % (zero, one), "    reveal_type(i)"]
+        elif o == 4:
+            body += ["reveal_type(\"%%s-%%s\" %% (%s, %s))" % (one, two)]
+        elif o == 5:
+            body += ["a, *rest = (%s, %s, %s)" % (one, zero, two), "reveal_type(a)", "reveal_type(rest)", "takes_int_%d(a)" % n]
+        elif o == 6:
+            body += ["for v in (%s, %s):" % (one, two), "    reveal_type(v)", "    takes_bool_%d(v)" % n]
+        elif o == 7:
+            body += ["reveal_type(%s + %s)" % (one, two), "reveal_type([%s, %s])" % (zero, one), "reveal_type({%s, %s})" % (one, two)]
+        else:
+            body += ["t: Tuple[bool, int] = (%s, %s)" % (one, zero), "reveal_type(t)", "reveal_type(bool(%s) and %s)" % (zero, one)]
+    lines += _indent4(body) + [""]
+    return lines
+
+
+def fam_call_order(r, n):
+    """Functions without return annotation called before their definition, recursion: what a
+    second check of the same module would see if anything about the first check were remembered."""
+    lit = r.choice(["\"x\"", "1", "[1]", "(1, \"a\")", "None", "{\"k\": 1}", "b\"y\"", "2.5"])
+    lit2 = r.choice(["\"y\"", "2", "[\"s\"]", "3.5"])
+    kind = r.below(4)
+    lines = []
+    if kind == 0:
+        lines += ["def caller_%d() -> int:" % n, "    return helper_%d()" % n, "", "def helper_%d():" % n, "    return %s" % lit, "",
+                  "def after_%d() -> None:" % n, "    reveal_type(helper_%d())" % n, ""]
+    elif kind == 1:
+        lines += ["def early_%d() -> None:" % n, "    reveal_type(rec_%d(2))" % n, "    reveal_type(late_%d(1))" % n, "",
+                  "def rec_%d(k):" % n, "    if k:", "        return rec_%d(k - 1)" % n, "    return %s" % lit, "",
+                  "def late_%d(v):" % n, "    if v:", "        return %s" % lit, "    return %s" % lit2, ""]
+    elif kind == 2:
+        lines += ["from asynq import asynq", "", "@asynq()", "def acaller_%d():" % n, "    val = yield ahelper_%d.asynq()" % n, "    reveal_type(val)", "    return val", "",
+                  "@asynq()", "def ahelper_%d():" % n, "    return %s" % lit, ""]
+    else:
+        lines += ["class Early_%d:" % n, "    def first(self) -> str:", "        return self.second()", "", "    def second(self):", "        return %s" % lit, "",
+                  "def use_early_%d(e: Early_%d) -> None:" % (n, n), "    reveal_type(e.second())", "    reveal_type(make_%d().first())" % n, "",
+                  "def make_%d():" % n, "    return Early_%d()" % n, ""]
+    return lines
+
+
 FAMILIES = {
+    "local_multi": fam_local_multi,
+    "equal_literals": fam_equal_literals,
+    "call_order": fam_call_order,
     "local_defs": fam_local_defs,
     "class_attrs": fam_class_attrs,
     "generic_protocol": fam_generic_protocol,
@@ -571,3 +682,92 @@ def generate(seed, count, families=None):
         out[pid] = code
         fam_of[pid] = fams
     return out, fam_of
+
+
+# ---------------------------------------------------------------------------------------
+# siblings: mechanical variants of a program that keep every NAME (functions, classes, variables,
+# attribute names) but change what the names mean, or the order in which they are defined.  A
+# program and its sibling are unrelated (neither imports the other) yet collide on every name,
+# which is what a cache with too coarse a key, or anything remembered per name, trips over.
+
+import ast as _ast
+
+_TYPE_SWAP = {"int": "str", "str": "bytes", "bytes": "int", "float": "int", "bool": "str"}
+
+
+class _TypeSwap(_ast.NodeTransformer):
+    def visit_Name(self, node):
+        if isinstance(node.ctx, _ast.Load) and node.id in _TYPE_SWAP:
+            return _ast.copy_location(_ast.Name(id=_TYPE_SWAP[node.id], ctx=node.ctx), node)
+        return node
+
+    def visit_Constant(self, node):
+        v = node.value
+        if isinstance(v, bool) or v is None or v is Ellipsis:
+            return node
+        if isinstance(v, int):
+            return _ast.copy_location(_ast.Constant(value="s%d" % v), node)
+        if isinstance(v, str):
+            return node
+        return node
+
+
+_EQUIV = {0: False, 1: True, 2: 2.0, 3: 3.0}
+
+
+class _LiteralSwap(_ast.NodeTransformer):
+    def visit_Constant(self, node):
+        v = node.value
+        if type(v) is int and v in _EQUIV:
+            return _ast.copy_location(_ast.Constant(value=_EQUIV[v]), node)
+        if v is True:
+            return _ast.copy_location(_ast.Constant(value=1), node)
+        if v is False:
+            return _ast.copy_location(_ast.Constant(value=0), node)
+        return node
+
+
+def _reorder(tree):
+    """Reverse the order of top-level function definitions (callers come before callees)."""
+    body = tree.body
+    idx = [i for i, s in enumerate(body) if isinstance(s, (_ast.FunctionDef, _ast.AsyncFunctionDef)) and not s.decorator_list]
+    if len(idx) < 2:
+        return None
+    funcs = [body[i] for i in idx][::-1]
+    for i, f in zip(idx, funcs):
+        body[i] = f
+    return tree
+
+
+def _has_set_of_non_ints(tree):
+    for node in _ast.walk(tree):
+        if isinstance(node, _ast.SetComp):
+            return True
+        if isinstance(node, _ast.Set):
+            if not all(isinstance(e, _ast.Constant) and type(e.value) in (int, bool, float) for e in node.elts):
+                return True
+        if isinstance(node, _ast.Call) and isinstance(node.func, _ast.Name) and node.func.id in ("set", "frozenset") and node.args:
+            return True
+    return False
+
+
+def siblings(pid, code):
+    out = []
+    for tag, make in (("typeswap", lambda t: _TypeSwap().visit(t)), ("litswap", lambda t: _LiteralSwap().visit(t)), ("reorder", _reorder)):
+        try:
+            tree = _ast.parse(code)
+            new = make(tree)
+            if new is None:
+                continue
+            _ast.fix_missing_locations(new)
+            text = _ast.unparse(new) + "\n"
+            _ast.parse(text)
+        except Exception:
+            continue
+        if _has_set_of_non_ints(new):
+            # a set display of strings prints in hash order by itself (Python's own repr): the
+            # program, not pyanalyze, would be world-dependent (same rule as corpus/EXCLUDED.md)
+            continue
+        if text.strip() != _ast.unparse(_ast.parse(code)).strip():
+            out.append(("%s#%s" % (pid, tag), text))
+    return out
